@@ -282,3 +282,66 @@ def summarise(it, seq, node, gen, frame):
     res = SFiltered(n, lambda i: subst(cond_t, i), lambda i: subst(elt_t, i), name="comp(%s)" % seq.name)
     outer.ghost.setdefault("filtered", []).append(res)
     return res
+
+
+def generator_filter_loop(it, node, frame, seq):
+    """`for x in <symbolic sequence>: ... yield x ...` inside a generator: summarised as the filtered
+    subsequence (same order).  Each iteration may yield the loop element at most once and must not
+    touch other state; anything else is Unsupported."""
+    if isinstance(seq, SFiltered):
+        n, base_cond, getter = seq.n, seq.cond, seq.elt
+    else:
+        n, base_cond, getter = to_int(seq.length), None, seq.get
+    j = z3.Int(_fresh("gy"))
+    outer = it.path
+    results = []
+    work = [[]]
+    while work:
+        prefix = work.pop()
+        p = Path(prefix, outer.timeout)
+        p.pc = list(outer.pc) + [j >= 0, j < n] + ([base_cond(j)] if base_cond is not None else [])
+        p.n = outer.n + 700 * (len(results) + 1)
+        p.assumed = outer.assumed
+        base = len(p.pc)
+        sub = type(it)(p, loop_specs=it.loop_specs, summaries=it.summaries)
+        fr = Frame(frame.fn, dict(frame.locals), frame.node, frame.qn)
+        fr.globals, fr.cells, fr.parent = frame.globals, frame.cells, frame.parent
+        ys = []
+        fr.locals["__yield__"] = ys
+        elem = getter(j)
+        try:
+            sub.assign(node.target, elem, fr)
+            try:
+                sub.exec_block(node.body, fr)
+            except Exception as e:
+                if type(e).__name__ == "_Continue":
+                    pass
+                else:
+                    raise
+            if len(ys) > 1 or (ys and ys[0] is not elem):
+                raise Unsupported("generator loop yields something other than its element once")
+            results.append((p.pc[base:], bool(ys)))
+        except Infeasible:
+            pass
+        except PyRaise as e:
+            results.append((p.pc[base:], e))
+        work.extend(p.pending)
+    raises = [(g, r) for g, r in results if isinstance(r, PyRaise)]
+    if raises:
+        k = outer.fork_free(len(raises) + 1)
+        if k < len(raises):
+            g, e = raises[k]
+            w = outer.fresh("bad", z3.IntSort())
+            outer.assume(z3.And(0 <= w, w < n, *[z3.substitute(x, (j, w)) for x in g]))
+            raise PyRaise(e.exc_cls, e.exc_args)
+        jj = z3.Int(_fresh("gq"))
+        for g, e in raises:
+            cond = z3.And(*g) if g else z3.BoolVal(True)
+            outer.assume(z3.ForAll([jj], z3.Implies(z3.And(0 <= jj, jj < n), z3.Not(z3.substitute(cond, (j, jj))))))
+    yes = [z3.And(*g) if g else z3.BoolVal(True) for g, r in results if r is True]
+    cond_t = z3.Or(*yes) if yes else z3.BoolVal(False)
+    if base_cond is not None:
+        cond_t = z3.And(base_cond(j), cond_t)
+    res = SFiltered(n, lambda i: z3.substitute(cond_t, (j, to_int(i))), getter, name="yielded(%s)" % getattr(seq, "name", "seq"))
+    res.objects = True
+    return res
